@@ -280,6 +280,8 @@ class Gen:
             alphabet = "abcXYZ 019_-.,!?"
             if r.random() < 0.15:
                 alphabet += "\u00e9\u30a2\u00a9"      # characters without an ASCII byte: they emit nothing and must occupy nothing
+            elif r.random() < 0.15:
+                alphabet += "\t\t;/*{}#:=\"(["         # a string is data: tabs stay tabs, comment / block / operand characters mean nothing
             return [{"k": "ascii", "t": "".join(r.choice(alphabet) for _ in range(r.randint(0, 12)))}]
         if kind == "table":
             name = f"tab{len(self.tables)}.tbl"
